@@ -63,7 +63,6 @@ package codegen
 //@ func (*NameScope).Name
 //@   params s name
 //@   property C01
-//@   requires s != nil
 //@   modifies* nothing
 //@   frameprop C01
 
@@ -150,3 +149,9 @@ package codegen
 //@   loop 1 invariant* walks.required: att.Validation != nil && ranged(1) == att.Validation.Required && (res.arr == 0 || sinceEntry(res))
 //@   loop 1 step* presence.checked.unless.not.nilable: len(res) == prev(1, len(res)) + ite(exempt, 0, 1) && (!exempt ==> res[len(res) - 1] == cur) && (forall k int :: 0 <= k && k < prev(1, len(res)) ==> res[k] == prev(1, res[k]))
 //@   modifies nothing
+
+// ---- generated output does not depend on map iteration order (C09) --------------------------------
+// Every function of this package that ranges over a map is either proved independent of the iteration order
+// (commutativity of the loop body, or keys collected and sorted before use) or listed here as NOT proved;
+// a range over a map appearing anywhere else in the package is reported.
+//@ maprange-census property C09: (*SectionTemplate).Write=1 AttributeTags=1 SnakeCase=1 safelyGetMetaTypeImports=1
